@@ -14,6 +14,7 @@ import (
 	"errors"
 	"fmt"
 	"google.golang.org/genproto/googleapis/api/annotations"
+	"hash/fnv"
 	"io"
 	"net/http"
 	"net/http/httptest"
@@ -382,14 +383,32 @@ func buildTranscoder(sc *Scenario, fresh bool) (*vanguard.Transcoder, error) {
 		}
 		protos = append(protos, pp)
 	}
-	svcOpts := []vanguard.ServiceOption{
+	allOpts := []vanguard.ServiceOption{
 		vanguard.WithTargetProtocols(protos...),
 		vanguard.WithTargetCodecs(sc.Cfg.Codecs...),
 		vanguard.WithTargetCompression(sc.Cfg.Compress...),
 		vanguard.WithMaxMessageBufferBytes(sc.Cfg.MaxMsg),
 		vanguard.WithMaxGetURLBytes(sc.Cfg.MaxGetURL),
 	}
+	// The same configuration is expressed in different ways (a function of the configuration, so
+	// that a run is reproducible): each option either on the service itself or as a transcoder-wide
+	// default, next to a second service with quite different options of its own, registered before
+	// or after.  None of this may change how verif.v1.Svc is served.
+	hsh := fnv.New32a()
+	hsh.Write(keyBytes)
+	mix := hsh.Sum32()
+	var svcOpts, defOpts []vanguard.ServiceOption
+	for i, o := range allOpts {
+		if mix>>uint(i)&1 == 1 {
+			defOpts = append(defOpts, o)
+		} else {
+			svcOpts = append(svcOpts, o)
+		}
+	}
 	opts := fakeOptions()
+	if len(defOpts) > 0 {
+		opts = append(opts, vanguard.WithDefaultServiceOptions(defOpts...))
+	}
 	if len(sc.Cfg.Protocols) == 1 && sc.Cfg.Protocols[0] == "rest" {
 		// NewTranscoder wants at least one binding for a REST-only service
 		opts = append(opts, vanguard.WithRules(&annotations.HttpRule{Selector: "verif.v1.Svc.Unary",
@@ -398,9 +417,14 @@ func buildTranscoder(sc *Scenario, fresh bool) (*vanguard.Transcoder, error) {
 	if sc.Cfg.Unknown {
 		opts = append(opts, vanguard.WithUnknownHandler(scriptedHandler("unknown")))
 	}
-	t, err := vanguard.NewTranscoder([]*vanguard.Service{
-		vanguard.NewServiceWithSchema(schemaSvc, scriptedHandler("svc"), svcOpts...),
-	}, opts...)
+	other := vanguard.NewServiceWithSchema(cfgSchema["cfg.v1.Lib"], http.HandlerFunc(func(http.ResponseWriter, *http.Request) {}),
+		vanguard.WithTargetProtocols(vanguard.ProtocolGRPCWeb), vanguard.WithTargetCodecs("rev"), vanguard.WithTargetCompression(),
+		vanguard.WithMaxMessageBufferBytes(7), vanguard.WithMaxGetURLBytes(9))
+	svcs := []*vanguard.Service{other, vanguard.NewServiceWithSchema(schemaSvc, scriptedHandler("svc"), svcOpts...)}
+	if mix>>5&3 == 0 {
+		svcs[0], svcs[1] = svcs[1], svcs[0]
+	}
+	t, err := vanguard.NewTranscoder(svcs, opts...)
 	if err != nil {
 		return nil, err
 	}
